@@ -1,4 +1,132 @@
-From Coq Require Import List ZArith.
-From QV Require Import Sinc.Model.
-Theorem placeholder_c10 : True. Proof. exact I. Qed.
-Print Assumptions placeholder_c10.
+(* C10 -- sinc: property theorems (statements in full; proofs in Sinc/Proofs.v).
+   Model: Sinc/Model.v, one step = one shared access / operator call of src/sincs/donecount.c.
+   V, vop = the user's value type and operator; progs = ANY submit/expect/wait programs with ANY placement
+   (slot) per submit; sched = ANY list of thread ids.
+   clean s = the property's proviso on the history: no expect found the count at zero (exp0 = false), no
+   submission was begun beyond initial + expects (over = false), the count fits the 64-bit counter.
+   all_arrived s = counter 0, #decrements = initial + sum of expects, every begun submit has decremented. *)
+From Coq Require Import List ZArith Bool Arith.
+From QV Require Import Sinc.Model Sinc.Proofs.
+Import ListNotations.
+
+(* whenever a wait has got past its readFF (returned, or copying the result), every expected submission is in *)
+Theorem wait_after_all_submits :
+  forall (V : Type) (vop : V -> V -> V) (hd : bool) (iv junk : V) (ns : nat) (c : Z)
+         (progs : list (list (op V))) (sched : list nat) (i : nat) (t : thr V),
+    let s := exec V vop (start V hd iv junk ns c progs) sched in
+    clean V s -> nth_error (thrs V s) i = Some t -> (t_got V t <> [] \/ t_pc V t = PCopy V) -> all_arrived V s.
+Proof. exact wait_after_all_submits_start. Qed.
+Print Assumptions wait_after_all_submits.
+
+(* the same for the generation that follows qt_sinc_reset on any state *)
+Theorem wait_after_all_submits_after_reset :
+  forall (V : Type) (vop : V -> V -> V) (s0 : state V) (n : Z) (progs : list (list (op V))) (sched : list nat) (i : nat) (t : thr V),
+    let s := exec V vop (reset V s0 n progs) sched in
+    clean V s -> nth_error (thrs V s) i = Some t -> (t_got V t <> [] \/ t_pc V t = PCopy V) -> all_arrived V s.
+Proof. exact wait_after_all_submits_reset. Qed.
+Print Assumptions wait_after_all_submits_after_reset.
+
+(* the proviso is necessary: an expect that finds the count at zero lets a wait through with a submission outstanding *)
+Theorem wait_without_proviso_refuted :
+  let s := exec nat Nat.add (start nat true 0%nat 0%nat 1 1 w_progs) w_sched in
+  exp0 nat s = true /\ over nat s = false /\
+  (exists t, nth_error (thrs nat s) 2 = Some t /\ t_got nat t <> []) /\ (Z.of_nat (decs nat s) < c0 nat s + exps nat s)%Z /\ counter nat s = 1%Z.
+Proof. exact wait_without_proviso_refuted_lemma. Qed.
+Print Assumptions wait_without_proviso_refuted.
+
+(* while a thread collates, and whenever ready is full, no submission is outstanding or between its slot update and
+   its decrement: the collation reads every slot after all slot updates *)
+Theorem collate_sees_all :
+  forall (V : Type) (vop : V -> V -> V) (hd : bool) (iv junk : V) (ns : nat) (c : Z)
+         (progs : list (list (op V))) (sched : list nat),
+    let s := exec V vop (start V hd iv junk ns c progs) sched in
+    clean V s ->
+    (forall i t, nth_error (thrs V s) i = Some t -> isCol V t = true -> all_arrived V s) /\
+    (ready V s = true -> all_arrived V s).
+Proof. exact collate_sees_all_start. Qed.
+Print Assumptions collate_sees_all.
+
+(* ... and from then on no submit or expect step can happen without breaking the proviso (slots are frozen) *)
+Theorem frozen_after_arrival :
+  forall (V : Type) (vop : V -> V -> V) (hd : bool) (iv junk : V) (ns : nat) (c : Z)
+         (progs : list (list (op V))) (sched : list nat) (i : nat) (s' : state V) (t : thr V),
+    let s := exec V vop (start V hd iv junk ns c progs) sched in
+    counter V s = 0%Z -> nth_error (thrs V s) i = Some t -> step V vop s i = Some s' -> clean V s' ->
+    match t_pc V t with PSlot _ _ _ | PDec _ _ | PAdd _ _ | PEmpty _ => False | _ => True end.
+Proof. exact frozen_after_arrival_start. Qed.
+Print Assumptions frozen_after_arrival.
+
+(* value, part 1: for an associative-commutative operator a slot update folds the value into the total of the slots
+   exactly as into the multiset of submitted values, whichever slot (placement) is used *)
+Theorem sinc_value_partial_slot_update :
+  forall (V : Type) (vop : V -> V -> V),
+    (forall a b c : V, vop (vop a b) c = vop a (vop b c)) -> (forall a b : V, vop a b = vop b a) ->
+    forall (s : state V) (i : nat) (t : thr V) (v : V) (k : nat) (s' : state V),
+      nth_error (thrs V s) i = Some t -> t_pc V t = PSlot V v k -> (k < length (slots V s))%nat ->
+      step V vop s i = Some s' ->
+      submitted V s' = submitted V s ++ [v] /\
+      forall a, reduce V vop (slots V s') a = vop (reduce V vop (slots V s) a) v /\
+                reduce V vop (submitted V s') a = vop (reduce V vop (submitted V s) a) v.
+Proof. exact slot_step_reduce. Qed.
+Print Assumptions sinc_value_partial_slot_update.
+
+(* value, part 2: no other step touches slots or the submitted multiset *)
+Theorem sinc_value_partial_other_steps :
+  forall (V : Type) (vop : V -> V -> V) (s : state V) (i : nat) (t : thr V) (s' : state V),
+    nth_error (thrs V s) i = Some t -> (forall v k, t_pc V t <> PSlot V v k) -> step V vop s i = Some s' ->
+    slots V s' = slots V s /\ submitted V s' = submitted V s.
+Proof. exact other_step_keeps_slots. Qed.
+Print Assumptions sinc_value_partial_other_steps.
+
+(* value, part 3: what the collation steps and the copy do to result / the delivered value *)
+Theorem sinc_value_partial_collate_steps :
+  forall (V : Type) (vop : V -> V -> V) (s : state V) (i : nat) (t : thr V) (s' : state V),
+    nth_error (thrs V s) i = Some t -> step V vop s i = Some s' ->
+    match t_pc V t with
+    | PC0 _ => result V s' = initv V s
+    | PCol _ k => result V s' = vop (result V s) (nth k (slots V s) (initv V s))
+    | PCopy _ => exists t', nth_error (thrs V s') i = Some t' /\ t_got V t' = t_got V t ++ [Some (result V s)]
+    | _ => result V s' = result V s
+    end.
+Proof. exact collate_steps. Qed.
+Print Assumptions sinc_value_partial_collate_steps.
+
+(* value, part 4: collating slots whose total equals the reduction of the submitted values yields that reduction *)
+Theorem sinc_value_partial_collation :
+  forall (V : Type) (vop : V -> V -> V),
+    (forall a b c : V, vop (vop a b) c = vop a (vop b c)) -> (forall a b : V, vop a b = vop b a) ->
+    forall (sl vs : list V) (e : V),
+      (forall x, vop e x = x) -> reduce V vop sl e = reduce V vop vs e ->
+      fold_left (fun r j => vop r (nth j sl e)) (seq 0 (length sl)) e = reduce V vop vs e.
+Proof. exact collate_of_slots. Qed.
+Print Assumptions sinc_value_partial_collation.
+
+(* a sinc created for zero submissions delivers the never-written result buffer, not the initial value *)
+Theorem sinc_value_zero_count_refuted :
+  let s := exec nat Nat.add (start nat true 0%nat 77%nat 1 0 [[Wait nat true]]) [0;0]%nat in
+  exp0 nat s = false /\ over nat s = false /\
+  (exists t, nth_error (thrs nat s) 0 = Some t /\ t_got nat t = [Some 77%nat]) /\ reduce nat Nat.add (submitted nat s) 0%nat = 0%nat.
+Proof. exact sinc_value_zero_count_refuted_lemma. Qed.
+Print Assumptions sinc_value_zero_count_refuted.
+
+(* reset: with n <> 0, or n = 0 on a completed sinc, the state IS that of a freshly initialised sinc (whose
+   never-written result buffer happens to hold the old result) *)
+Theorem reset_fresh :
+  forall (V : Type) (s : state V) (n : Z) (progs : list (list (op V))),
+    n <> 0%Z -> reset V s n progs = start V (hasdata V s) (initv V s) (result V s) (nslots V s) n progs.
+Proof. exact reset_fresh_pos. Qed.
+Print Assumptions reset_fresh.
+
+Theorem reset_fresh_zero_after_completion :
+  forall (V : Type) (s : state V) (progs : list (list (op V))),
+    ready V s = true -> reset V s 0 progs = start V (hasdata V s) (initv V s) (result V s) (nslots V s) 0 progs.
+Proof. exact reset_fresh_zero_complete. Qed.
+Print Assumptions reset_fresh_zero_after_completion.
+
+(* reset 0 of an incomplete sinc leaves ready empty, a fresh sinc with 0 is full (unspecified by the API text) *)
+Theorem reset_zero_incomplete_differs :
+  forall (V : Type) (s : state V) (progs : list (list (op V))),
+    ready V s = false ->
+    ready V (reset V s 0 progs) = false /\ ready V (start V (hasdata V s) (initv V s) (result V s) (nslots V s) 0 progs) = true.
+Proof. exact reset_zero_incomplete_differs_lemma. Qed.
+Print Assumptions reset_zero_incomplete_differs.
